@@ -38,6 +38,16 @@ func c15Val() float64 {
 	return v
 }
 
+// c15EdgePt: an edge point whose value may also be exactly 0 (text-only
+// edge points such as a role carry value 0)
+func c15EdgePt(typ, key string) data.Point {
+	p := c15Pt(typ, key)
+	if vBool() {
+		p.Value = 0
+	}
+	return p
+}
+
 type c15Node struct {
 	n        data.NodeEdge
 	children []*c15Node
@@ -116,7 +126,7 @@ func HarnessC15ExportImport() {
 			EdgePoints: data.Points{{Type: data.PointTypeTombstone, Key: "0", Time: vInstant(19886, 0, 0, 0)}, c15Pt("role", "0")}},
 		{ID: "c1", Parent: "t", Type: "y",
 			Points:     data.Points{c15Pt("v", "0")},
-			EdgePoints: data.Points{{Type: data.PointTypeTombstone, Key: "0", Time: vInstant(19886, 0, 0, 0)}}},
+			EdgePoints: data.Points{{Type: data.PointTypeTombstone, Key: "0", Time: vInstant(19886, 0, 0, 0)}, c15EdgePt("role", "0")}},
 	}
 	// a cross reference held in a node-id point of t: to c1, to a node outside the tree, or none
 	ref := []string{"c1", "elsewhere", ""}[vChoose(3)]
